@@ -17,7 +17,7 @@ EXTENDS SDCore
 
 CONSTANTS
   Kinds,        \* disturbances the environment may use: subset of
-                \*   {"crash_srv","crash_wat","stop_srv","stop_wat","loss","drop","dup","delay"}
+                \*   {"crash_srv","crash_wat","stop_srv","stop_wat","loss","drop","dup","delay","unfind"}
   MaxFaults,    \* budget of disturbance steps (a crash and its restart are two)
   FaultWindow,  \* disturbances start only while clk <= FaultWindow
   Horizon,      \* the behaviour ends when clk reaches Horizon
@@ -50,11 +50,16 @@ FirstInit(x) ==
   IF Cfg.sess0 = <<>> THEN NodeInit(x)
   ELSE [NodeInit(x) EXCEPT !.sessOut = ("mc" :> Cfg.sess0) @@ (Addr[Other(x)] :> Cfg.sess0)]
 Call(x, op) == [to |-> x, left |-> 0, e |-> [op |-> op]]
+CallE(x, e) == [to |-> x, left |-> 0, e |-> e]
 \* harness calls of an instant reach the loop before the datagrams that become due in it, in the order they were made
 AddCall(nt, x, op) ==
   LET C == {i \in DOMAIN nt : nt[i].e.op # "rx"}
       n == IF C = {} THEN 0 ELSE CHOOSE i \in C : \A j \in C : j <= i
   IN SubSeq(nt, 1, n) \o <<Call(x, op)>> \o SubSeq(nt, n + 1, Len(nt))
+AddCallE(nt, x, e) ==
+  LET C == {i \in DOMAIN nt : nt[i].e.op # "rx"}
+      n == IF C = {} THEN 0 ELSE CHOOSE i \in C : \A j \in C : j <= i
+  IN SubSeq(nt, 1, n) \o <<CallE(x, e)>> \o SubSeq(nt, n + 1, Len(nt))
 
 Init2 ==
   /\ nd = [x \in Nodes |-> FirstInit(x)]
@@ -165,7 +170,17 @@ OneShot ==
        /\ pf' = p /\ obs' = <<IF p[1] = "delay" THEN [d |-> p[2]] @@ FaultEv("delay", "") ELSE FaultEv(p[1], "")>>
   /\ nf' = nf + 1
   /\ UNCHANGED <<nd, up, net, lossy, clk, fresh>>
-Fault == (\E x \in Nodes : Crash(x) \/ Restart(x) \/ Stop(x) \/ Start(x)) \/ LossOn \/ LossOff \/ OneShot
+\* the application of the watcher withdraws the auto-subscription of listener LA (stop_find_subscribe_eventgroup); a configuration
+\* with a second, overlapping auto-subscription (listener LB, same concrete eventgroup) keeps the subscription through the other one.
+\* The call reaches the loop like every harness call; a restarted watcher registers both again.
+Unfind ==
+  /\ CanFault /\ "unfind" \in Kinds /\ up["wat"] # "down"
+  /\ "LA" \in DOMAIN nd["wat"].watch /\ "F1" \in nd["wat"].watch["LA"]
+  /\ ~\E i \in DOMAIN net : net[i].e.op = "unwatch"
+  /\ net' = AddCallE(net, "wat", [op |-> "unwatch", lst |-> "LA", flt |-> "F1"])
+  /\ obs' = <<FaultEv("unfind", "wat")>> /\ nf' = nf + 1
+  /\ UNCHANGED <<nd, up, lossy, pf, clk, fresh>>
+Fault == (\E x \in Nodes : Crash(x) \/ Restart(x) \/ Stop(x) \/ Start(x)) \/ LossOn \/ LossOff \/ OneShot \/ Unfind
 
 -----------------------------------------------------------------------------
 (* --------------------------------- time ---------------------------------- *)
